@@ -7,6 +7,7 @@ package main
 
 import (
 	"fmt"
+	"sort"
 
 	"github.com/wader/fq/internal/verifharness/hlib"
 )
@@ -15,7 +16,7 @@ type profile struct {
 	name      string
 	plainFile bool // pcap_le + ethernet only
 	maxConns  int
-	perturb   int  // maximal number of perturbations per connection
+	perturb   int // maximal number of perturbations per connection
 	allowOmit bool
 	allowFrag bool
 	allowSwap bool
@@ -23,18 +24,54 @@ type profile struct {
 	edgeSwap  bool // swaps may involve SYN / FIN / pure ACK packets
 	fragMess  bool // fragments may be swapped / duplicated / dropped
 	noSynFin  bool // SYN / FIN may be absent
+	sections  bool // pcapng captures have 2..3 sections
 	big       bool
 }
 
 var fmtNames = []string{"pcap_le", "pcap_be", "pcap_le_ns", "pcap_be_ns", "pcapng_le", "pcapng_be"}
-var linkNames = []string{"eth", "raw", "ipv4", "sll", "sll2", "null"}
+var linkNames = []string{"eth", "raw", "ipv4", "ipv6", "sll", "sll2", "null"}
 
 var fragID uint16
 
-func genConn(r *hlib.Rand, ci int, pf profile, link string) conn {
+// genV6 makes addresses that exercise the textual form fq prints: zero runs of every length and position,
+// two runs of equal length, a single zero group, IPv4-mapped, all zero / loopback
+func genV6(r *hlib.Rand, ci int, side byte) []byte {
+	ip := make([]byte, 16)
+	switch r.Intn(8) {
+	case 0: // fd00::<ci>:<x>
+		ip[0] = 0xfd
+		ip[13], ip[14], ip[15] = byte(ci), side, byte(1+r.Intn(250))
+	case 1: // ::1 / ::<x>
+		ip[15] = byte(1 + r.Intn(250))
+		ip[14] = side
+		ip[13] = byte(ci)
+	case 2: // IPv4-mapped ::ffff:a.b.c.d
+		ip[10], ip[11] = 0xff, 0xff
+		ip[12], ip[13], ip[14], ip[15] = 10, side, byte(ci), byte(1+r.Intn(250))
+	default:
+		for g := 0; g < 8; g++ {
+			switch r.Intn(3) {
+			case 0:
+			case 1:
+				ip[2*g+1] = byte(1 + r.Intn(255))
+			default:
+				ip[2*g], ip[2*g+1] = byte(r.Intn(256)), byte(r.Intn(256))
+			}
+		}
+		ip[0], ip[1] = 0x20, 0x01
+		ip[14], ip[15] = side, byte(ci+1)
+	}
+	return ip
+}
+
+func genConn(r *hlib.Rand, ci int, pf profile, v6 bool) conn {
 	var c conn
-	c.ip[0] = [4]byte{10, 0, byte(ci), byte(1 + r.Intn(250))}
-	c.ip[1] = [4]byte{10, 1, byte(r.Intn(3)), byte(1 + r.Intn(250))}
+	c.ip[0] = []byte{10, 0, byte(ci), byte(1 + r.Intn(250))}
+	c.ip[1] = []byte{10, 1, byte(r.Intn(3)), byte(1 + r.Intn(250))}
+	if v6 {
+		c.ip[0] = genV6(r, ci, 1)
+		c.ip[1] = genV6(r, ci, 2)
+	}
 	c.port[0] = uint16(1024 + ci*1000 + r.Intn(1000))
 	switch r.Intn(8) {
 	case 0:
@@ -50,9 +87,9 @@ func genConn(r *hlib.Rand, ci int, pf profile, link string) conn {
 	default:
 		c.port[1] = uint16(1024 + r.Intn(60000))
 	}
-	if r.Intn(10) == 0 {
+	if !v6 && r.Intn(10) == 0 {
 		// same address on both sides (loopback traffic): the directions differ only by port
-		c.ip[0] = [4]byte{127, 0, 0, 1}
+		c.ip[0] = []byte{127, 0, 0, 1}
 		c.ip[1] = c.ip[0]
 		c.port[0] = uint16(20000 + ci*1000 + r.Intn(1000))
 		c.port[1] = uint16(10000 + ci*1000 + r.Intn(1000))
@@ -312,7 +349,7 @@ func perturb(r *hlib.Rand, k *kase, tl []pkt, pf profile) ([]pkt, []string) {
 			notes = append(notes, "omit")
 		case "frag":
 			i := r.Intn(len(tl))
-			if tl[i].frag || tl[i].n == 0 || tl[i].n > 1460 {
+			if tl[i].frag || tl[i].n == 0 || tl[i].n > 1460 || k.conns[tl[i].conn].v6() {
 				continue
 			}
 			fr, note := fragment(r, k, tl[i], pf.fragMess)
@@ -323,21 +360,70 @@ func perturb(r *hlib.Rand, k *kase, tl []pkt, pf profile) ([]pkt, []string) {
 	return tl, notes
 }
 
+func pickLinks(r *hlib.Rand, ng bool) []string {
+	ls := []string{linkNames[r.Intn(len(linkNames))]}
+	if ng && r.Intn(4) == 0 {
+		ls = append(ls, linkNames[r.Intn(len(linkNames))])
+	}
+	return ls
+}
+
 func genKase(r *hlib.Rand, pf profile) *kase {
 	k := &kase{}
+	nsec := 1
 	if pf.plainFile {
 		k.fmtName, k.links = "pcap_le", []string{"eth"}
 	} else {
 		k.fmtName = fmtNames[r.Intn(len(fmtNames))]
-		k.links = []string{linkNames[r.Intn(len(linkNames))]}
-		if capFmts[k.fmtName].ng && r.Intn(4) == 0 {
-			k.links = append(k.links, linkNames[r.Intn(len(linkNames))])
+		if pf.sections {
+			k.fmtName = []string{"pcapng_le", "pcapng_be"}[r.Intn(2)]
 		}
+		ng := capFmts[k.fmtName].ng
+		k.links = pickLinks(r, ng)
+		if ng && pf.sections {
+			// several sections. section_length given: every section may have its own interfaces;
+			// section_length -1: the same interfaces in every section (see known finding pcapng-shb-section)
+			nsec = r.Range(2, 3)
+			if r.Intn(2) == 0 {
+				k.fmtName += "_len"
+			}
+		}
+	}
+	var secLinks [][]string
+	for s := 1; s < nsec; s++ {
+		if capFmts[k.fmtName].len && r.Intn(2) == 0 {
+			secLinks = append(secLinks, pickLinks(r, true))
+		} else {
+			secLinks = append(secLinks, nil)
+		}
+	}
+	// address families every interface of the capture can carry
+	v4ok, v6ok := true, true
+	for _, ls := range append([][]string{k.links}, secLinks...) {
+		for _, l := range ls {
+			if l == "ipv4" {
+				v6ok = false
+			}
+			if l == "ipv6" {
+				v4ok = false
+			}
+		}
+	}
+	if !v4ok && !v6ok {
+		k.links = []string{"eth"}
+		for i := range secLinks {
+			secLinks[i] = nil
+		}
+		v4ok, v6ok = true, true
 	}
 	nc := r.Range(1, pf.maxConns)
 	var tls [][]pkt
 	for ci := 0; ci < nc; ci++ {
-		k.conns = append(k.conns, genConn(r, ci, pf, k.links[0]))
+		v6 := !v4ok || (v6ok && !pf.plainFile && r.Intn(4) == 0)
+		k.conns = append(k.conns, genConn(r, ci, pf, v6))
+		if v6 {
+			k.notes = append(k.notes, "v6conn")
+		}
 	}
 	for ci := 0; ci < nc; ci++ {
 		tl, n1 := timeline(r, ci, k.conns[ci], pf)
@@ -360,6 +446,36 @@ func genKase(r *hlib.Rand, pf profile) *kase {
 		}
 		k.pkts = append(k.pkts, tls[cur][idx[cur]])
 		idx[cur]++
+	}
+	// section boundaries anywhere in the packet list (also at the ends: empty sections), so that
+	// connections span them
+	if nsec > 1 {
+		var cutsAt []int
+		if capFmts[k.fmtName].len {
+			// section_length given: no section without packets (its last block, an interface description,
+			// would be shorter than the section header block: known finding pcapng-section-length)
+			if nsec > len(k.pkts) {
+				nsec = len(k.pkts)
+			}
+			seen := map[int]bool{}
+			for len(cutsAt) < nsec-1 {
+				c := r.Range(1, len(k.pkts)-1)
+				if !seen[c] {
+					seen[c] = true
+					cutsAt = append(cutsAt, c)
+				}
+			}
+		} else {
+			for s := 1; s < nsec; s++ {
+				cutsAt = append(cutsAt, r.Range(0, len(k.pkts)))
+			}
+		}
+		sort.Ints(cutsAt)
+		k.secs = cutsAt
+		k.secLinks = secLinks[:len(cutsAt)]
+		if len(cutsAt) > 0 {
+			k.notes = append(k.notes, fmt.Sprintf("sections%d", len(cutsAt)+1))
+		}
 	}
 	k.notes = dedup(k.notes)
 	return k
